@@ -150,9 +150,21 @@ def setdt(job):
         else:
             c = getattr(f, '%s_%d' % (dt.lower(), j))
             setattr(c, '%s_%d' % (sdt.lower(), k), value)
-        return 'ok ' + vlib.hexs(f.to_er7())
+        er7 = f.to_er7()
     except Exception as e:  # noqa
         return 'exc ' + vlib.exc_name(e)
+    if hk == 'F':
+        # the same position spelled as a traversal path from the field, `<seg>_<i>_<j>[_<k>]` (C02's third observation point): same encoding
+        try:
+            g = Field(hn, version=v, validation_level=vlib.level(False))
+            setattr(g, '%s_%d' % (hn.lower(), j) + ('' if k is None else '_%d' % k), value)
+            er7p = g.to_er7()
+            back = getattr(g, '%s_%d' % (hn.lower(), j) + ('' if k is None else '_%d' % k)).to_er7()
+        except Exception as e:  # noqa
+            return 'pathexc ' + vlib.exc_name(e)
+        if er7p != er7 or back != value:
+            return 'pathdiff ' + vlib.hexs(er7p) + ' ' + vlib.hexs(back)
+    return 'ok ' + vlib.hexs(er7)
 
 
 def _mk(kind, name, v):
